@@ -627,6 +627,180 @@ def same_invoke_id_two_states(res, engine, order):
                       "status %s" % out["s2"][0], wit)
 
 
+def late_result_same_id_scenario(res, engine, outcome):
+    """States `a` and `b` invoke under ONE explicit id.  a's result (or failure) is already queued
+    when the event that leaves `a` for `b` is processed, so it is dequeued while b's own, unfinished
+    invocation of that id is the live one: it belongs to an activation that is over and must not
+    drive b's onDone/onError; b's own outcome still must."""
+    seen = []
+
+    def rec(tag):
+        return lambda i, c, e, a: seen.append((tag, getattr(e, "data", None) if outcome == "ret" else "err"))
+    handlers = lambda tag, to: ({"onDone": {"target": to, "actions": [tag]}} if outcome == "ret" else  # noqa: E731
+                                {"onError": {"target": to, "actions": [tag]}})
+    out = {}
+    if engine == "async":
+        async def body():
+            hold_gate, a_gate, b_gate = asyncio.Event(), asyncio.Event(), asyncio.Event()
+
+            async def svc_a(i, c, e):
+                await a_gate.wait()
+                if outcome != "ret":
+                    raise ServiceBoom("a")
+                return "result-of-a"
+
+            async def svc_b(i, c, e):
+                await b_gate.wait()
+                if outcome != "ret":
+                    raise ServiceBoom("b")
+                return "result-of-b"
+
+            async def hold(i, c, e, a):
+                await hold_gate.wait()
+            cfg = {"id": "m", "initial": "a", "states": {
+                "a": dict({"invoke": dict({"id": "job", "src": "svc_a"}, **handlers("rec_a", "a_done"))},
+                          on={"HOLD": {"actions": ["hold"]}, "NEXT": "b"}),
+                "b": {"invoke": dict({"id": "job", "src": "svc_b"}, **handlers("rec_b", "b_done"))},
+                "a_done": {}, "b_done": {}}}
+            out["cfg"] = cfg
+            it = Interpreter(create_machine(cfg, logic=MachineLogic(
+                actions={"hold": hold, "rec_a": rec("a"), "rec_b": rec("b")},
+                services={"svc_a": svc_a, "svc_b": svc_b})))
+            await it.start()
+            try:
+                for _ in range(5):
+                    await asyncio.sleep(0)
+                await it.send("HOLD")           # the run loop is now inside a slow action
+                for _ in range(5):
+                    await asyncio.sleep(0)
+                await it.send("NEXT")           # queued behind it
+                a_gate.set()                    # a's outcome is queued behind NEXT
+                for _ in range(5):
+                    await asyncio.sleep(0)
+                hold_gate.set()
+                for _ in range(60):
+                    await asyncio.sleep(0)
+                out["mid"] = (sorted(config_of(it)), list(seen), it.status)
+                b_gate.set()
+                for _ in range(60):
+                    await asyncio.sleep(0)
+                out["end"] = (sorted(config_of(it)), list(seen), it.status)
+            finally:
+                hold_gate.set(), a_gate.set(), b_gate.set()
+                await it.stop()
+        run_virtual(body)
+    else:
+        def svc_a(i, c, e):
+            if outcome != "ret":
+                raise ServiceBoom("a")
+            return "result-of-a"
+        kid = create_machine({"id": "kid", "initial": "w", "states": {
+            "w": {"on": {"FIN": "f"}}, "f": {"type": "final", "output": "result-of-b"}}}, logic=MachineLogic())
+        cfg = {"id": "m", "initial": "idle", "states": {
+            "idle": {"on": {"GO": "a"}},
+            "a": dict({"invoke": dict({"id": "job", "src": "svc_a"}, **handlers("rec_a", "a_done"))},
+                      on={"NEXT": "b"}),
+            "b": {"invoke": {"id": "job", "src": "kid", "onDone": {"target": "b_done", "actions": ["rec_b"]}},
+                  "on": {"FINISH": {"actions": [{"type": "xstate.sendTo", "params": {"to": "job", "event": "FIN"}}]}}},
+            "a_done": {}, "b_done": {}}}
+        out["cfg"] = cfg
+        it = SyncInterpreter(create_machine(cfg, logic=MachineLogic(
+            actions={"rec_a": rec("a"), "rec_b": lambda i, c, e, a: seen.append(("b", getattr(e, "data", None)))},
+            services={"svc_a": svc_a, "kid": kid}))).start()
+        try:
+            # the service runs inline when `a` is entered: its outcome queues up BEHIND `NEXT`
+            it.send_events(["GO", "NEXT"])
+            t0 = time.time()
+            while time.time() - t0 < 1.0 and not any(
+                    getattr(x, "status", "") == "running" for x in it._actors.values()):
+                time.sleep(0.005)
+            out["mid"] = (sorted(config_of(it)), list(seen), it.status)
+            it.send("FINISH")
+            t0 = time.time()
+            while time.time() - t0 < 6.0 and not seen and "m.b_done" not in config_of(it):
+                time.sleep(0.005)
+            out["end"] = (sorted(config_of(it)), list(seen), it.status)
+        finally:
+            it.stop()
+    res.evaluations += 1
+    res.count("late-result-same-id.scenarios.%s.%s" % (engine, outcome))
+    res.hashes.add(h(["late-same-id", engine, outcome]))
+    wit = {"engine": engine, "outcome": outcome, "config": out.get("cfg"), "mid": out.get("mid"),
+           "end": out.get("end")}
+    mid, end = out.get("mid"), out.get("end")
+    if mid is None or end is None:
+        res.count("late-result-same-id.not-run")
+        return
+    if mid[0] != ["m", "m.b"] or mid[1] or mid[2] != "running":
+        res.violation("C09:result-of-exited-activation-drove-another-state/same-invoke-id/%s" % engine,
+                      "after a -> b with a's %s queued behind the leaving event: configuration %s, handlers %s, "
+                      "status %s" % ("result" if outcome == "ret" else "failure", mid[0], mid[1], mid[2]), wit)
+        return
+    want = [("b", "result-of-b")] if (outcome == "ret" or engine == "sync") else [("b", "err")]
+    got = [t for t, _ in end[1]] if engine == "sync" else end[1]     # (a child machine's done data: C10)
+    if engine == "sync":
+        want = ["b"]
+    if end[0] != ["m", "m.b_done"] or got != want:
+        res.violation("C09:own-outcome-lost-after-a-stale-one/same-invoke-id/%s" % engine,
+                      "b's own outcome: configuration %s, handlers %s (expected %s)" % (end[0], end[1], want), wit)
+
+
+def prefix_named_region_service(res, short, long_):
+    """(async) Two sibling regions whose names extend one another, the longer one running a slow
+    service: re-entering only the SHORTER-named region must not touch that service."""
+    out = {}
+
+    async def body():
+        gate = asyncio.Event()
+        started, cancelled = [], []
+
+        async def slow(i, c, e):
+            started.append(1)
+            try:
+                await gate.wait()
+            except asyncio.CancelledError:
+                cancelled.append(1)
+                raise
+            return "late"
+        cfg = {"id": "m", "type": "parallel", "states": {
+            short: {"initial": "x", "states": {"x": {"on": {"AGAIN": {"target": "#m.%s" % short, "reenter": True}}}},
+                    "on": {"RESTART": {"target": "#m.%s" % short, "reenter": True}}},
+            long_: {"initial": "checking", "states": {
+                "checking": {"invoke": {"src": "slow", "id": "chk", "onDone": "ok"}}, "ok": {}}}}}
+        out["cfg"] = cfg
+        it = Interpreter(create_machine(cfg, logic=MachineLogic(services={"slow": slow})))
+        await it.start()
+        for _ in range(5):
+            await asyncio.sleep(0)
+        await it.send("RESTART")
+        await drain(it)
+        await it.send("AGAIN")
+        await drain(it)
+        for _ in range(10):
+            await asyncio.sleep(0)
+        out["cancelled"] = len(cancelled)
+        out["started"] = len(started)
+        gate.set()
+        for _ in range(40):
+            await asyncio.sleep(0)
+        await drain(it)
+        out["cfg_end"] = sorted(config_of(it))
+        await it.stop()
+    run_virtual(body)
+    res.evaluations += 1
+    res.count("prefix-named-region-service.scenarios")
+    res.hashes.add(h(["prefix-svc", short, long_]))
+    wit = {"regions": [short, long_], "config": out.get("cfg"), "observed": {k: v for k, v in out.items() if k != "cfg"}}
+    if out.get("started") != 1 or out.get("cancelled"):
+        res.violation("C09:service-of-a-prefix-named-sibling-region-cancelled-or-restarted",
+                      "regions %r and %r: service of the untouched region started %s time(s), cancelled %s" % (
+                          short, long_, out.get("started"), out.get("cancelled")), wit)
+    elif "m.%s.ok" % long_ not in out.get("cfg_end", []):
+        res.violation("C09:completion-of-a-prefix-named-sibling-region-lost",
+                      "the untouched region's service completed but its onDone was not taken: %s" % out.get("cfg_end"),
+                      wit)
+
+
 def run_chunk(spec):
     observe.quiet_logs()
     res = Result()
@@ -694,6 +868,17 @@ def run_chunk(spec):
                 wd.arm("same invoke id %s" % engine)
                 same_invoke_id_two_states(res, engine, order)
             k += 1
+    for engine in ("sync", "async"):
+        for outcome in ("ret", "raise"):
+            if k % NCHUNKS == ci:
+                wd.arm("late result same id %s" % engine)
+                late_result_same_id_scenario(res, engine, outcome)
+            k += 1
+    for short, long_ in (("sync", "sync_status"), ("io", "io2"), ("net", "net-x"), ("a", "ab")):
+        if k % NCHUNKS == ci:
+            wd.arm("prefix named region service")
+            prefix_named_region_service(res, short, long_)
+        k += 1
     for how in ("self", "up"):
         for fail_on in (2, 3, 4):
             for T in (3, 8):
@@ -710,7 +895,9 @@ def quota(counters, tier):
     for k in ("schedules.async", "schedules.sync", "service-calls", "handler-firings",
               "schedules.kind.plain", "schedules.kind.coro", "schedules.kind.machine",
               "schedules.kind.machineslow", "schedules.kind.awaitable", "rollback-reentry.scenarios", "slow-cancel.scenarios", "same-invoke-id.scenarios.sync",
-              "same-invoke-id.scenarios.async",
+              "same-invoke-id.scenarios.async", "late-result-same-id.scenarios.sync.ret",
+              "late-result-same-id.scenarios.async.ret", "late-result-same-id.scenarios.async.raise",
+              "prefix-named-region-service.scenarios",
               "unhandled-failures", "census.after-exit", "schedules.with-leave-or-reentry"):
         if counters.get(k, 0) == 0:
             out.append("monitor-never-reached:" + k)
